@@ -6,10 +6,8 @@ import F1Verif.Generated.Facts
 import F1Verif.Expected
 namespace F1.Props.FactsC17
 
--- (average_Add, average_Update, average_average, average_drain: re-proved semantically on the regenerated MiniGo programs, see Props/Refine*.lean)
+-- (average_Add, average_Update, average_average, average_drain, active_Run, active_Setup: re-proved semantically on the regenerated MiniGo programs, see Props/Refine*.lean)
 
-theorem fact_active_Run : F1.Generated.skel_active_Run = F1.Expected.skel_active_Run := by rfl
-theorem fact_active_Setup : F1.Generated.skel_active_Setup = F1.Expected.skel_active_Setup := by rfl
 theorem fact_average_Snapshot : F1.Generated.skel_average_Snapshot = F1.Expected.skel_average_Snapshot := by rfl
 theorem fact_average_CollectLifetime : F1.Generated.skel_average_CollectLifetime = F1.Expected.skel_average_CollectLifetime := by rfl
 theorem fact_average_Record : F1.Generated.skel_average_Record = F1.Expected.skel_average_Record := by rfl
